@@ -153,7 +153,7 @@ func concOps() []concOp {
 		}},
 		{"EvaluateString(big failing page)", false, func(tpl *textwire.Template, data map[string]any, abs string) string {
 			who := fmt.Sprint(data["who"])
-			src := strings.Repeat("<p>"+who+"</p>\n", 400) + "{{ who.nofn"+who+"() }}"
+			src := strings.Repeat("<p>"+who+"</p>\n", 400) + "{{ who.nofn" + who + "() }}"
 			out, err := textwire.EvaluateString(src, data)
 			return fmt.Sprintf("out=%s err=%v", out, err)
 		}},
